@@ -77,6 +77,13 @@ func cmdConc(args []string) {
 	var shared []*expr.Expression
 	pg := driver.NewPostgresDriver()
 	var calls []concCall
+	needShared := *kinds == ""
+	for _, k := range strings.Split(*kinds, ",") {
+		switch k {
+		case "render", "renderp", "str", "gostr", "json", "validate":
+			needShared = true
+		}
+	}
 	for i, q := range queries {
 		q := q
 		calls = append(calls,
@@ -115,6 +122,9 @@ func cmdConc(args []string) {
 				s, ps, err := lucene.ToParameterizedPostgres(q)
 				return digest(s, fmt.Sprint(ps...), err == nil)
 			}})
+		if !needShared { // nothing of this corpus is parsed before the goroutines start: tables filled on first sight stay cold
+			continue
+		}
 		e, err := lucene.Parse(q)
 		if err != nil {
 			continue
